@@ -145,7 +145,8 @@ structure Env (α : Type) where
   unknownTime : α
   sort : TableCollection α → TableCollection α
   computeParents : TableCollection α → List Int
-  computeTimes : TableCollection α → List α
+  /-- `tables.compute_mutation_times()` (may re-sort the mutations of a site, see `TimesRel`) -/
+  computeTimes : TableCollection α → TableCollection α
   provRow : TableCollection α → ProvRow
 
 def nodeMd {α : Type} (t : TableCollection α) : MdTable := ⟨t.nodes.map (·.metadata), t.nodesSchema⟩
@@ -194,9 +195,7 @@ def stageTskit {α : Type} (E : Env α) (t5 : TableCollection α) : Option (Tabl
   let t6 := E.sort t5
   (setCol? MutRow.setParent t6.mutations (E.computeParents t6)).bind
   fun ms7 =>
-  let t7 := { t6 with mutations := ms7 }
-  (setCol? MutRow.setTime t7.mutations (E.computeTimes t7)).bind
-  fun ms8 => some { t7 with mutations := ms8 }
+  some (E.computeTimes { t6 with mutations := ms7 })
 
 /-- Last part: `provenance.record_provenance(tables, …)` when provenance is recorded. -/
 def stageProv {α : Type} (E : Env α) (o : Options) (t8 : TableCollection α) : TableCollection α :=
